@@ -67,7 +67,11 @@ def rand_programs(rng):
             waits = [rng.choice(["swait", "swait", "stwait", "strywait"]) for _ in range(rng.randint(0, 3))]
             nsig += sig
             nwait += len(waits)
-            progs.append(["ssignal"] * sig + waits)
+            p = ["ssignal"] * sig + waits
+            if "swait" not in waits and rng.random() < 0.5:
+                rng.shuffle(p)            # a thread that never blocks for good may wait before it signals: timed waits that
+                                          # really time out, followed by waits of the same thread that succeed
+            progs.append(p)
         init = max(0, nwait - nsig) + rng.randint(0, 1)
         progs = [p for p in progs if p] or [["ssignal"]]
         return "sem", init, progs
@@ -154,8 +158,24 @@ def run(ctx):
     runs = []
     for i in range(nrand):
         prim, init, progs = rand_programs(ctx.rng)
-        runs.append(scenario_args(prim, init, progs) + ["--seed", str(ctx.seed * 100003 + i), "--spur", ctx.rng.choice(["0", "0", "0.05", "0.3"])])
+        runs.append(scenario_args(prim, init, progs) + ["--seed", str(ctx.seed * 100003 + i), "--spur", ctx.rng.choice(["0", "0", "0.05", "0.3"]),
+                     "--tout", ctx.rng.choice(["0", "0", "0.1", "0.3"])])      # time-outs may fire although other threads could still run
     check_runs(ctx, binary, runs, "random")
+    # histories of ONE thread across several calls: a timed wait that really times out, then waits of the same thread that
+    # must succeed (state a call leaves behind - a flag, a thread-local error code - must not leak into the next call)
+    DIRECTED = [("sem", 0, [["stwait", "stwait", "stwait"], ["ssignal", "ssignal"]]),
+                ("sem", 0, [["stwait", "strywait", "stwait"], ["ssignal"], ["ssignal", "ssignal", "stwait"]]),
+                ("sem", 1, [["stwait", "stwait", "ssignal", "stwait"], ["stwait", "ssignal", "stwait"]]),
+                ("signal", 0, [["twait", "twait", "wait"], ["twait", "wait"], ["set"]]),
+                ("signal", 0, [["twait", "twait"], ["reset", "set"], ["twait", "wait"]]),
+                ("monitor", 0, [["mlock", "mtwait", "mtwait", "mtwait", "munlock"], ["mset", "mset"]]),
+                ("monitor", 0, [["mlock", "mtwait", "munlock", "mlock", "mtwait", "munlock"], ["mlock", "mtwait", "munlock"], ["mset", "mset"]])]
+    runs = []
+    for j, (prim, init, progs) in enumerate(DIRECTED):
+        for i in range(12 if ctx.quick else 150):
+            runs.append(scenario_args(prim, init, progs) + ["--seed", str(ctx.seed * 7907 + 100 * j + i), "--spur", "0" if i % 3 else "0.1",
+                                                            "--tout", ["0.2", "0.4", "0.6"][i % 3]])
+    check_runs(ctx, binary, runs, "directed")
     ctx.assumptions.append("sequential consistency at the granularity of the shim's scheduling points")
     return vlib.finish(ctx, "model_checking",
                        "TLC state graphs of 8 scenario programs over the pthread model -> schedules replayed on the real primitives "
